@@ -12,6 +12,7 @@ namespace Ckpt.Py
 inductive PyErr
   | valueError | runtimeError | assertionError | indexError | keyError | typeError
   | zeroDivisionError | stopIteration | notImplementedError | fuel
+  | invalidForwardStep | invalidReverseStep | invalidRevolverAction | invalidActionIndex
 deriving DecidableEq, Repr, Inhabited
 
 abbrev M := Except PyErr
@@ -40,5 +41,12 @@ def pyIndex {α : Type} (xs : List α) (i : Int) : M α :=
 /-- `xs.pop()` as a statement: the list without its last element; `IndexError` on an empty list -/
 def pyPop {α : Type} (xs : List α) : M (List α) :=
   if xs.isEmpty then throw .indexError else pure xs.dropLast
+
+/-- `s.add(x)` for a Python set kept as a duplicate-free list -/
+def pySetAdd {α : Type} [DecidableEq α] (s : List α) (x : α) : List α := if x ∈ s then s else s ++ [x]
+
+/-- `s.remove(x)`: `KeyError` if absent -/
+def pySetRemove {α : Type} [DecidableEq α] (s : List α) (x : α) : M (List α) :=
+  if x ∈ s then pure (s.erase x) else throw .keyError
 
 end Ckpt.Py
